@@ -343,6 +343,12 @@ class Formula:
                     return r
             elif isinstance(s, ast.Assign) and len(s.targets) == 1 and isinstance(s.targets[0], ast.Name):
                 env[s.targets[0].id] = self.ev(s.value, env, depth)
+            elif isinstance(s, ast.Assign) and len(s.targets) == 1 and isinstance(s.targets[0], ast.Tuple) and \
+                    isinstance(s.value, ast.Tuple) and len(s.value.elts) == len(s.targets[0].elts) and \
+                    all(isinstance(t, ast.Name) for t in s.targets[0].elts):
+                vals = [self.ev(v, env, depth) for v in s.value.elts]   # right-hand side first (simultaneous binding)
+                for t, v in zip(s.targets[0].elts, vals):
+                    env[t.id] = v
             elif isinstance(s, ast.AugAssign) and isinstance(s.target, ast.Name):
                 a, b = env.get(s.target.id), self.ev(s.value, env, depth)
                 if a is None:
